@@ -25,12 +25,16 @@ package vgirpc
 //@   property C01
 //@   at call (arrow.Metadata).GetValue#1 assert [methodkey] arg1 == MetaMethod && arg0 == meta
 //@   at call (arrow.Metadata).GetValue#2 assert [versionkey] arg1 == MetaRequestVersion && arg0 == meta
-//@   ensures [local_nomethod_ret5] result0 == nil && rpcErrType(result1, "ProtocolError") && !ok
-//@   ensures [local_badutf8_ret6] result0 == nil && rpcErrType(result1, "ProtocolError")
-//@   ensures [local_noversion_ret7] result0 == nil && rpcErrType(result1, "VersionError")
-//@   ensures [local_wrongversion_ret8] result0 == nil && rpcErrType(result1, "VersionError") && version != ProtocolVersion
-//@   ensures [local_rowcount_ret9] result0 == nil && rpcErrType(result1, "ProtocolError") && numRows(batch) != 1 && !isExternal && !isShmPointer
-//@   ensures [local_request_ret10] result1 == nil && result0 != nil && result0.Method == method && result0.Version == version && version == ProtocolVersion &&
+//@   # (repaired defect: the drain loop never looked at the reader's error, so a stream that is garbage
+//@   # after its first batch was accepted as a request) a stream that could not be read to its end is refused
+//@   ensures [local_unreadable_ret5] result0 == nil && result1 != nil
+//@   at call (*ipc.Reader).Err#2 assert [afterdrain] arg0 == reader
+//@   ensures [local_nomethod_ret6] result0 == nil && rpcErrType(result1, "ProtocolError") && !ok
+//@   ensures [local_badutf8_ret7] result0 == nil && rpcErrType(result1, "ProtocolError")
+//@   ensures [local_noversion_ret8] result0 == nil && rpcErrType(result1, "VersionError")
+//@   ensures [local_wrongversion_ret9] result0 == nil && rpcErrType(result1, "VersionError") && version != ProtocolVersion
+//@   ensures [local_rowcount_ret10] result0 == nil && rpcErrType(result1, "ProtocolError") && numRows(batch) != 1 && !isExternal && !isShmPointer
+//@   ensures [local_request_ret11] result1 == nil && result0 != nil && result0.Method == method && result0.Version == version && version == ProtocolVersion &&
 //@       result0.RequestID == requestID && result0.LogLevel == logLevel && result0.Batch == batch
 
 // ReadUnaryResult: a result is reported only for the first batch that has rows, and only when
